@@ -13,7 +13,7 @@ RULE = ("(A) every history over {define x|y|z in the innermost scope (add_variab
         "either definition order; oracle: a stack of dictionaries. (B) programs nesting 1-3 macros whose iteration "
         "variables come from {x, y, z}, which also name root variables, inner-scope variables and host functions; "
         "oracle: lexically scoped reference evaluator, and every root / inner binding and absence re-read unchanged "
-        "after execution; non-trivial = history with a redefinition or shadowing / program reusing a name; distinct = "
+        "after execution. ranges of length <= 3 (quick) / 4 (thorough) over 9 values that are pairwise identical or equal-but-distinguishable, observed exactly by the body. (C) one compiled program executed against 2-5 contexts in a row that bind x, y, z differently (int, list, absent), incl. forms whose range and iteration variable share a name; non-trivial = history with a redefinition or shadowing / program reusing a name; distinct = "
         "distinct history / (source, context)")
 ASSUMPTIONS = ["add_function on a child scope is a documented no-op; functions are defined at the root only"]
 
@@ -93,6 +93,9 @@ def units(tier, seed):
         us.append(('randhist', i))
     for i in range(8 if tier == 'quick' else 96):
         us.append(('programs', i))
+    for i in range(3 if tier == 'quick' else 32):
+        us.append(('rebind', i))
+    us.append(('elements', 3 if tier == 'quick' else 4))
     return us
 
 
@@ -277,6 +280,121 @@ def run_unit(unit, drv, res, seed, tier):
                 res.violation('wrong-lookup', 'variable and function sharing a name', 'function hidden or invented', c,
                               expected="call resolves to the %s" % ('function' if has_fn else 'nothing'), observed=fmt_outcome(got_call))
         res.exhaustive_done['function-variable-name-sharing'] = True
+    elif kind == 'elements':
+        # the iteration variable denotes the *current* element: ranges whose neighbours are identical, or equal
+        # under == yet distinguishable (1, 1u, 1.0; 0.0, -0.0; [1], [1.0]), observed exactly by the body
+        from celmodel.values import U, D
+        alpha = [I(1), D(1.0), U(1), D(0.0), D(-0.0), I(2), L([I(1)]), L([D(1.0)]), S('1')]
+        V = lambda n: ('id', n)
+        items = []
+        for n in range(1, unit[1] + 1):
+            for xs in itertools.product(alpha, repeat=n):
+                if n == unit[1] and len(set(map(repr, xs))) > 3:
+                    continue
+                R = ('list', [('lit', v) if v[0] != 'l' else ('list', [('lit', w) for w in v[1]]) for v in xs])
+                for e in (('macro', 'map', R, 'x', [V('x')]),
+                          ('macro', 'map', R, 'x', [('list', [V('x'), V('x')])]),
+                          ('macro', 'filter', R, 'x', [('bin', '==', V('x'), ('lit', I(1)))]),
+                          ('macro', 'map', R, 'x', [('bin', '==', V('x'), ('lit', I(1))), V('x')]),
+                          ('macro', 'map', R, 'x', [('macro', 'map', ('list', [V('x'), ('lit', I(1)), V('x')]), 'y', [V('y')])]),
+                          ('macro', 'map', R, 'x', [('macro', 'map', R, 'x', [V('x')])]),
+                          ('macro', 'map', R, 'x', [('call', 'string', [V('x')])]) if not any(v[0] == 'l' for v in xs) else None,
+                          ('macro', 'map', R, 'x', [('call', 't', [V('x'), V('x')])])):
+                    if e is not None:
+                        items.append(e)
+        cases, exps = [], []
+        for e in items:
+            try:
+                exp, ev = run_once(e, {})
+            except Unsupported:
+                continue
+            cases.append(exec_case(len(cases), render_min(e)))
+            exps.append((exp, ev))
+        for part_c, part_e in zip(chunks(cases, 6000), chunks(exps, 6000)):
+            out = drv.run(part_c, 'elements')
+            for c, r, (exp, ev) in zip(part_c, out, part_e):
+                res.evaluations += 1
+                res.nt(c["src"])
+                o = top_outcome(r)
+                res.count("elements:" + (o[1] if o[0] == 'err' else o[0]))
+                if is_crash(o):
+                    res.violation(o[0], 'iteration variable', crash_sig(o), c, observed=list(o))
+                elif not same_outcome(exp, o):
+                    res.violation(mismatch_kind(exp, o), 'iteration variable', 'body did not see the current element', c,
+                                  expected=fmt_outcome(exp), observed=fmt_outcome(o))
+        res.exhaustive_done['ranges-with-equal-neighbours-len-le-%d' % unit[1]] = True
+    elif kind == 'rebind':
+        # one compiled program, several contexts in a row that bind the pool names differently (int, list, absent):
+        # what a name denotes is decided at each execution, never remembered from an earlier one; the fixed forms
+        # use the same name for a macro's range and its iteration variable
+        rng = rng_for(seed, 'C11', 'rebind', unit[1])
+        ID = lambda n: ('id', n)
+        li = lambda k: ('lit', I(k))
+        fixed = []
+        for N, M in itertools.permutations(NAMES, 2):
+            fixed += [
+                ('macro', 'map', ID(N), N, [('bin', '+', ID(N), li(1))]),
+                ('macro', 'map', ('list', [li(100)]), M, [('macro', 'map', ID(N), N, [('bin', '+', ID(N), ID(M))])]),
+                ('macro', 'filter', ID(N), N, [('bin', '>', ID(N), li(1))]),
+                ('cond', ('macro', 'all', ID(N), N, [('bin', '>', ID(N), li(0))]), ID(N), ('list', [li(0)])),
+                ('bin', '+', ('call', 'size', [('macro', 'map', ID(N), M, [ID(M)])]), ('call', 'size', [ID(N)])),
+                ('macro', 'exists', ID(N), N, [('macro', 'exists', ('list', [ID(N)]), N, [('bin', '==', ID(N), li(2))])]),
+                ('macro', 'map', ('macro', 'map', ID(N), N, [('list', [ID(N)])]), N, [('call', 'size', [ID(N)])]),
+                ('macro', 'map', ID(N), N, [('bin', '>', ID(N), li(1)), ('bin', '*', ID(N), li(2))]),
+                ('macro', 'exists_one', ID(N), M, [('bin', '==', ID(M), li(2))]),
+                ('list', [li(1), li(2)]), ('macro', 'map', ('list', [li(1), li(2)]), N, [('bin', '+', ID(N), li(1))]),
+            ]
+        items = []
+        progs = list(fixed)
+        for _ in range(250):
+            g = NameGen(rng)
+            progs.append(rng.choice([g.listexpr, g.boolexpr, g.intexpr])(rng.choice([1, 2, 3]), set()))
+        for e in progs:
+            ctxs = []
+            for k in range(rng.choice([2, 3, 4])):
+                vs = []
+                for i, n in enumerate(NAMES):
+                    m = rng.random()
+                    if m < 0.45:
+                        vs.append((n, L([I(rng.randint(0, 3)) for _ in range(rng.randint(0, 3))])))
+                    elif m < 0.8:
+                        vs.append((n, I(rng.randint(0, 3) + 10 * k)))
+                ctxs.append(vs)
+            if rng.random() < 0.3:
+                ctxs.append(ctxs[0])
+            try:
+                exps = [run_once(e, dict(vs))[0] for vs in ctxs]
+            except Unsupported:
+                continue
+            items.append((e, ctxs, exps))
+        cases = [{"id": i, "op": "multictx", "src": render_min(e),
+                  "ctxs": [{"vars": [[n, to_json(v)] for n, v in vs]} for vs in ctxs]} for i, (e, ctxs, exps) in enumerate(items)]
+        out = drv.run(cases, 'rebind')
+        for c, r, (e, ctxs, exps) in zip(cases, out, items):
+            if not (isinstance(r, dict) and 'runs' in r):
+                o = top_outcome(r, 'runs')
+                if is_crash(o):
+                    res.violation(o[0], 'one program, several contexts', crash_sig(o), c, observed=list(o))
+                elif isinstance(r, dict) and 'compile_err' in r:
+                    res.violation('rejected', 'one program, several contexts', 'compile error', c, observed=str(r)[:300])
+                else:
+                    res.inconclusive.append("multictx: " + str(r)[:200])
+                continue
+            res.nt(c["src"] + str(c["ctxs"]))
+            for k, (run, exp) in enumerate(zip(r['runs'], exps)):
+                res.evaluations += 1
+                o = outcome(run['res'])
+                res.count("rebind:" + (o[1] if o[0] == 'err' else o[0]))
+                if is_crash(o):
+                    res.violation(o[0], 'one program, several contexts', crash_sig(o), c, observed=list(o))
+                    break
+                if not same_outcome(exp, o):
+                    res.violation(mismatch_kind(exp, o), 'one program, several contexts',
+                                  'execution %s differs from what its own context prescribes' % ('1' if k == 0 else 'after the first'), c,
+                                  expected={"context": k, "outcome": fmt_outcome(exp)}, observed=fmt_outcome(o))
+                    break
+        if cases:
+            res.sample({"src": cases[0]["src"], "ctxs": cases[0]["ctxs"]}, cap=1)
     else:
         rng = rng_for(seed, 'C11', 'prog', unit[1])
         items = []
